@@ -111,8 +111,13 @@ CLAIMED = {
    text="Lean theorems (Echse.Props.C11) about the transcribed model of _inject_task1/_eject_task1/cmd_ical: the table refines the "
         "abstract map UID -> (owner, task), requests of one user never change, list or re-own another user's entries, and every "
         "instruction gets exactly one reply that is 2.0 iff the map changed as requested - for all finite request histories "
-        "(root daemon and per-user daemon). Real echsd.c is driven with requests from four users over colliding UIDs and "
-        "compared with the model and the abstract-map reference.",
+        "(root daemon and per-user daemon), for ANY socket peer, known to the password database or not (a peer that cannot be "
+        "resolved acts for nobody: unknown_peer_cannot_inject). The GET /queue view (httpQueue: gate, forced checkpoint of "
+        "unsaved changes, the user's file): in every reachable state (reachable_fresh, an invariant tying the spool to the "
+        "table for users without unsaved changes) a user is shown only its own tasks (queue_isolation) and every task of "
+        "its own still to run (queue_complete). Real echsd.c is driven with requests from known users of two uid ranges, "
+        "root and an unknown peer over colliding UIDs, with GET /sched and GET /queue requests, busy spells that overflow "
+        "the daemon's list of marked users, and compared with the model and the abstract-map reference.",
    note="Trusted: as C04. NOT modelled: the 32-bit hash key of a UID and the open-addressing table (two UIDs with equal hash are one "
         "task, low-bit collisions grow the table) - findings D28/D29 are outside the model; getpwuid is replaced.",
    technique="Lean 4 proof (refinement to an abstract map, induction over request histories) + differential correspondence check",
@@ -248,7 +253,10 @@ CLAIMED = {
         "encoding; the same events through the whole calendar parser.",
    note="Trusted: Lean kernel; Spec/Rfc5545.lean and Spec/Cal.lean (the reading of the RFC); vlib/rfc5545.py (independent second reading, "
         "used as oracle); harness hx_strm.c; the transcriptions Echse/Model/Rr*.lean. Hypothesis of the theorems: no BYHOUR/BYMINUTE/BYSECOND "
-        "on a DATE-valued DTSTART (the code does not ignore them as the RFC demands; recorded). Zoned DTSTART is judged by the oracle only.",
+        "on a DATE-valued DTSTART (the code does not ignore them as the RFC demands; recorded). Zoned DTSTART is judged by the oracle only. "
+        "KNOWN FINDINGS D125 (numbered BYDAY next to BYMONTHDAY/BYYEARDAY is not applied as a limit) and D129 (YEARLY: BYWEEKNO/BYYEARDAY "
+        "next to BYMONTH/BYMONTHDAY yield a union): both classes are generated, judged and reported as KNOWN-FINDING; a repair is drafted "
+        "in /verif/pending and passes oracle and suite, it goes in together with the model and proof update.",
    technique="Lean 4 proof (loop invariants linking incremental date arithmetic to day numbers; completeness by reachability of every instance) + reference-expander oracle + differential correspondence",
    design="§5 C01, §9"),
 }
